@@ -499,9 +499,25 @@ func (w *MixWorld) EncLaw105() []int64 {
 	return out
 }
 
-// f10 failure class on a mixed world: allocate more than once, and a job that received a bind
-// still holds a never-bound session-Allocated task with a non-empty request
-func (w *MixWorld) f10Pattern() bool {
+// EncLaw105With: like EncLaw105 with the bind list filtered.
+func (w *MixWorld) EncLaw105With(keep func(task int64) bool) []int64 {
+	all := w.Binds
+	var b []int64
+	for _, t := range all {
+		if keep(t) {
+			b = append(b, t)
+		}
+	}
+	w.Binds = b
+	out := w.EncLaw105()
+	w.Binds = all
+	return out
+}
+
+// f10Jobs: F10 mechanism per job on THIS execution: allocate more than once, and the job received a
+// bind while it still holds a never-bound session-Allocated task with a non-empty request
+func (w *MixWorld) f10Jobs() map[api.JobID]bool {
+	out := map[api.JobID]bool{}
 	k := 0
 	for _, a := range w.Spec.Actions {
 		if a == 1 {
@@ -509,7 +525,7 @@ func (w *MixWorld) f10Pattern() bool {
 		}
 	}
 	if k < 2 {
-		return false
+		return out
 	}
 	boundJob := map[api.JobID]bool{}
 	for _, b := range w.Binds {
@@ -517,10 +533,10 @@ func (w *MixWorld) f10Pattern() bool {
 	}
 	for _, t := range w.Tasks {
 		if boundJob[t.Job] && t.Status == api.Allocated && !t.BestEffort {
-			return true
+			out[t.Job] = true
 		}
 	}
-	return false
+	return out
 }
 
 var lastMix *MixWorld
@@ -535,11 +551,14 @@ func runMixed(in []int64) []int64 {
 
 func lawsMixed(law func(lsel int, lin []int64, sig string)) {
 	w := lastMix
-	sig := ""
-	if w.f10Pattern() {
-		sig = SigF10
+	fj := w.f10Jobs()
+	if len(fj) == 0 {
+		law(105, w.EncLaw105(), "")
+		return
 	}
-	law(105, w.EncLaw105(), sig)
+	// without the binds of the F10 jobs (unsigned), and with those only (selector 115, signed)
+	law(105, w.EncLaw105With(func(t int64) bool { return !fj[w.Tasks[t].Job] }), "")
+	law(115, w.EncLaw105With(func(t int64) bool { return fj[w.Tasks[t].Job] }), SigF10)
 }
 
 // ---------- generators of the law-only streams ----------
